@@ -6,6 +6,9 @@ package main
 
 import (
 	"bytes"
+	"compress/zlib"
+	"image"
+	"image/jpeg"
 	"crypto/sha256"
 	"encoding/hex"
 	"encoding/json"
@@ -330,6 +333,21 @@ func formsRound(r *rand.Rand, ids func(any) int) ([]linkEnt, error) {
 	return links, nil
 }
 
+// flateJPEG: a 256 x 256 grey noise image as a JPEG, deflated
+var flateJPEG = func() []byte {
+	img := image.NewGray(image.Rect(0, 0, 256, 256))
+	rnd := rand.New(rand.NewSource(1))
+	for i := range img.Pix {
+		img.Pix[i] = uint8(rnd.Intn(256))
+	}
+	var jp, z bytes.Buffer
+	must(jpeg.Encode(&jp, img, nil))
+	zw := zlib.NewWriter(&z)
+	zw.Write(jp.Bytes())
+	zw.Close()
+	return z.Bytes()
+}()
+
 func predefinedROS(which int) (bool, string) {
 	f, err := cmap.Predefined(sharedCMaps[which%len(sharedCMaps)])
 	if err != nil {
@@ -530,6 +548,22 @@ func (w *world) do(o op) (ok bool, id int, dig string) {
 			pdf.Format(&b, 0, obj)
 		}
 		return true, 0, digest(b.Bytes())
+	case "AbandonFlateDCT":
+		// a stream with /Filter [/FlateDecode /DCTDecode], partly read and
+		// closed: nothing of it may still be at work afterwards (the Flate
+		// stage's reader goes back into the package-level pool)
+		st := pdf.NewStream(pdf.Dict{"Filter": pdf.Array{pdf.Name("FlateDecode"), pdf.Name("DCTDecode")}}, flateJPEG)
+		rd, err := pdf.DecodeStream(w.r, nil, st)
+		if err != nil {
+			return false, 0, err.Error()
+		}
+		buf := make([]byte, 4096*(1+o.Ref%8))
+		_, err = io.ReadFull(rd, buf)
+		cerr := rd.Close()
+		if err != nil || cerr != nil {
+			return false, 0, fmt.Sprint(err, cerr)
+		}
+		return true, 0, digest(buf)
 	case "DecodeStream", "DecodeStreamCloseTwice":
 		obj, err := w.r.Get(ref, true)
 		if err != nil {
@@ -668,6 +702,8 @@ func main() {
 					o = op{"DecodeStream", streams[r.Intn(len(streams))]}
 					if r.Intn(3) == 0 {
 						o.Op = "DecodeStreamCloseTwice"
+					} else if r.Intn(4) == 0 {
+						o = op{"AbandonFlateDCT", r.Intn(8)}
 					}
 				case 4, 5, 6:
 					all := append(append([]int{}, valRefs...), chainRefs...)
